@@ -165,3 +165,45 @@ Theorem C19_satisfiable : forall (H : bytes -> bytes),
                [EDir; EFile; EFile; ERev; EFile], Some (dir_manifest ex_dups)).
 Proof. exact repair_satisfiable. Qed.
 Print Assumptions C19_satisfiable.
+
+(* ---- cross-model consistency C19 x C07 (proofs/CrossModelDedup.v).  [check]
+   above is this model's own transcription of Directory.check(); C07
+   (model/Ident.v) has the generic one.  A directory object d is viewed as
+   the hashable object [hobj_of d] = (kind Directory, attrs manifest =
+   dir_manifest of d's entries, raw manifest = d's, id = d's).  The two
+   definitions coincide: this model's check is the validators of C02 plus the
+   generic check (which, in the code, runs on objects whose validators have
+   already passed). *)
+From SWH.model Require Ident.
+From SWH.proofs Require Import CrossModelDedup.
+
+Theorem C19_check_is_C07_check : forall (H : bytes -> bytes) (d : dirobj),
+  check H d = true <-> (valid_dir (o_entries d) = true /\ Ident.check H (hobj_of d) = Ident.Ok tt).
+Proof. exact check_is_C07_check. Qed.
+Print Assumptions C19_check_is_C07_check.
+
+(* Hence, under exactly the hypotheses of C19_check (H separates the repaired
+   manifest from the original one), the repaired directory passes the GENERIC
+   integrity check with the preserved raw manifest, and recomputing its hash
+   gives the hash of the original manifest. *)
+Theorem C19_repaired_passes_C07_check : forall (H : bytes -> bytes) es f d,
+  no_slash es -> Decodable es -> Repeated es ->
+  repair H es [] None = RepOk f d ->
+  (H (dir_manifest (o_entries d)) = H (dir_manifest es) -> dir_manifest (o_entries d) = dir_manifest es) ->
+  valid_dir (o_entries d) = true
+  /\ Ident.check H (hobj_of d) = Ident.Ok tt
+  /\ Ident.h_raw (hobj_of d) = Some (dir_manifest es)
+  /\ Ident.h_id (hobj_of d) = H (dir_manifest es)
+  /\ Ident.compute_hash H (hobj_of d) = Ident.Ok (H (dir_manifest es)).
+Proof. exact repaired_passes_C07_check. Qed.
+Print Assumptions C19_repaired_passes_C07_check.
+
+(* The constructor of this model is C07's generic constructor on these objects. *)
+Theorem C19_constructor_is_C07s : forall (H : bytes -> bytes) es id raw,
+  match mk_directory H es id raw with
+  | Some d => valid_dir es = true /\
+              Ident.construct H Ident.KDirectory (Some (dir_manifest es)) (Some raw) id = Ident.Ok (hobj_of d)
+  | None => valid_dir es = false
+  end.
+Proof. exact mk_directory_is_C07_construct. Qed.
+Print Assumptions C19_constructor_is_C07s.
